@@ -24,10 +24,18 @@ struct Counter {
 struct CountStream {
     chunks: std::collections::VecDeque<Bytes>,
     c: Rc<RefCell<Counter>>,
+    pend_between: bool, // one chunk per wake-up: Pending (self-woken) between any two chunks
+    armed: bool,
 }
 impl Stream for CountStream {
     type Item = Result<Bytes, actix_web::error::PayloadError>;
-    fn poll_next(mut self: Pin<&mut Self>, _: &mut Context<'_>) -> Poll<Option<Self::Item>> {
+    fn poll_next(mut self: Pin<&mut Self>, cx: &mut Context<'_>) -> Poll<Option<Self::Item>> {
+        if self.pend_between && self.armed {
+            self.armed = false;
+            cx.waker().wake_by_ref();
+            return Poll::Pending;
+        }
+        self.armed = true;
         match self.chunks.pop_front() {
             Some(b) => {
                 let mut c = self.c.borrow_mut();
@@ -162,7 +170,7 @@ pub fn replay(cases: &[Value], out: &mut TraceOut) {
             if declared >= 0 {
                 rb = rb.insert_header((header::CONTENT_LENGTH, declared.to_string()));
             }
-            let stream = CountStream { chunks, c: counter.clone() };
+            let stream = CountStream { chunks, c: counter.clone(), pend_between: case.get("pend").and_then(|p| p.as_bool()).unwrap_or(false), armed: false };
             let mut sreq = rb.to_request();
             *sreq.payload() = dev::Payload::Stream { payload: Box::pin(stream) };
             crate::alloc::reset_peak();
